@@ -187,6 +187,14 @@ def handle (cmd : String) (args : List Sexp) : Sexp :=
     match IR.Wire.moduleOf m with
     | some m => .list (m.defs.map fun f => Sexp.ofBool (IR.NoFloatIdentityS f.body))
     | none => Sexp.mk "bad-request" [.str "unknown-constructor"]
+  | "CERT", [.atom "deadvar", f, .str x] =>
+    match IR.Wire.funcOf f with
+    | some f => Sexp.ofBool (f.body.deadVar x)
+    | none => Sexp.mk "bad-request" [.str "unknown-constructor"]
+  | "CERT", [.atom "noalloc", f] =>
+    match IR.Wire.funcOf f with
+    | some f => Sexp.ofBool f.body.noAlloc
+    | none => Sexp.mk "bad-request" [.str "unknown-constructor"]
   | "EQUIV", [fuel, a, b, .list envs] =>
     match fuel.toNat?, IR.Wire.stmtOf a, IR.Wire.stmtOf b, envs.mapM envOf with
     | some fuel, some a, some b, some envs =>
